@@ -7,6 +7,7 @@ Reference model: xsim.oracle_hkl (brute force) + Laue orbits.
 """
 import copy
 import math
+import os
 
 from . import core
 from . import oracle_hkl as O
@@ -462,6 +463,17 @@ def generate(rng, tier, index):
         i = live[0] if len(live) == 1 else rng.choice(live)
         merged.append(ops[i][cursors[i]])
         cursors[i] += 1
+    if not fault_free and rng.chance(0.25):
+        # re-entrancy: while one call is in progress (at a traced line inside xfab) the second party makes a call of
+        # its own, for another workload of the session if there is one
+        for op in merged:
+            if rng.chance(0.3):
+                w2 = rng.below(len(workloads))
+                m2 = op["module"] if rng.chance(0.7) else ("laue" if op["module"] == "tools" else "tools")
+                op["preempt"] = {"at": int(rng.loguniform(1, 20000)),
+                                 "op": {"fn": rng.choice(["genhkl_all", "genhkl_unique"]), "module": m2,
+                                        "mode": {"by": "sgno"}, "output_stl": rng.chance(0.5), "w": w2,
+                                        "rng": {"start": ["continue"], "preconsume": 0, "per_draw": {}}}}
     cfg = {"workloads": workloads, "fault_free": fault_free, "fault_kinds": kinds, "session_seed": rng.bits(32),
            "cell_container": rng.choice(["list", "list", "ndarray"])}
     return {"property": "C05", "config": cfg, "ops": merged}
@@ -635,6 +647,7 @@ def execute(trace):
     np.random.seed(int(cfg.get("session_seed", 0)))
     truth_n = 0
     draws_total = 0
+    tot = [0]
     try:
         with warnings.catch_warnings(), np.errstate(all="ignore"):
             warnings.simplefilter("ignore")
@@ -648,8 +661,36 @@ def execute(trace):
                     sets["settings"].add("%d/%s" % (ctxs[wi].no, ctxs[wi].cc))
                 return ctxs[wi]
 
-            def call(c, op, cc_=None, cell_=None):
+            import sys as _sys
+            src_prefix = os.path.join(os.path.realpath(core.xfab_src()), "xfab") + os.sep
+
+            def call(c, op, cc_=None, cell_=None, nested=None):
                 fn = getattr(mods[op["module"]], op["fn"])
+                pre = op.get("preempt") if nested is not None else None
+                tracer = None
+                if pre is not None:
+                    c2 = ctx_of(pre["op"].get("w", 0))
+                    if c2 is not None and c2.in_quantifier:
+                        left = [int(pre["at"])]
+
+                        def local(frame, event, arg):
+                            if event == "line":
+                                if left[0] == 0:
+                                    left[0] = -1
+                                    _sys.settrace(None)
+                                    # the second party's call runs to completion in the middle of ours
+                                    keep = (seam.sched, seam.ndraw)
+                                    nested.append((c2, pre["op"]) + call(c2, pre["op"]))
+                                    seam.sched, seam.ndraw = keep
+                                    return None
+                                if left[0] > 0:
+                                    left[0] -= 1
+                            return local if left[0] >= 0 else None
+
+                        def tracer(frame, event, arg):
+                            if left[0] >= 0 and frame.f_code.co_filename.startswith(src_prefix):
+                                return local
+                            return None
                 md = op["mode"]
                 kw = {"output_stl": bool(op["output_stl"])}
                 if md["by"] == "sgno":
@@ -661,6 +702,8 @@ def execute(trace):
                         kw["cell_choice"] = md["cell_choice"]
                 seam.begin(op.get("rng"))
                 try:
+                    if tracer is not None:
+                        _sys.settrace(tracer)
                     try:
                         cell_arg = c.session_cell if cell_ is None else list(cell_)
                         if op.get("kwcall"):
@@ -671,6 +714,10 @@ def execute(trace):
                     except Exception as e:  # noqa
                         out, exc = None, "%s: %s" % (type(e).__name__, str(e)[:80])
                 finally:
+                    if tracer is not None:
+                        _sys.settrace(None)
+                        if left[0] >= 0:
+                            count("probe.preempt_point_not_reached")
                     nd = seam.ndraw
                     seam.sched = None
                 return out, exc, nd
@@ -706,26 +753,15 @@ def execute(trace):
                                                "row %s has %.12g, sintl is %.12g" % (rows[i], col[i], s[i])))
                             break
 
-            seam.install()
-            outside = False
-            for opi, op in enumerate(trace["ops"]):
-                c = ctx_of(op.get("w", 0))
-                if c is None:
-                    continue
-                if not c.in_quantifier:
-                    # a shrunk / hand-edited trace left the quantifier: nothing is asserted for this workload
-                    outside = True
-                    count("skip.margin")
-                    continue
+            def judge_op(opi, op, c, out, exc, nd):
                 site = "%s.%s" % (op["module"], op["fn"])
-                out, exc, nd = call(c, op)
-                draws_total += nd
+                tot[0] += nd
                 count("calls." + op["fn"])
                 count("mode." + op["mode"]["by"])
                 if exc is not None:
                     viols.append(_viol(["C05", "C06"], "exception", site, exc))
                     events.append([opi, site, "exc", exc])
-                    continue
+                    return
                 arr = np.array(out, copy=True)
                 events.append([opi, site, list(arr.shape), nd, core.digest(core.enc_array(arr))[:16]])
                 if op.get("scribble") and isinstance(out, np.ndarray) and out.size:
@@ -743,7 +779,7 @@ def execute(trace):
                 out = arr
                 r = rows_of(out, site, 4 if op["output_stl"] else 3)
                 if r is None:
-                    continue
+                    return
                 rows, col = r
                 check_order_and_col(c, rows, col, site, op["output_stl"])
                 got = set(rows)
@@ -804,6 +840,24 @@ def execute(trace):
                                                _fmt([min(c.orbits[i]) for i in lost])))
                     if c.uniq_rows is None:
                         c.uniq_rows = (site, rows)
+            seam.install()
+            outside = False
+            for opi, op in enumerate(trace["ops"]):
+                c = ctx_of(op.get("w", 0))
+                if c is None:
+                    continue
+                if not c.in_quantifier:
+                    # a shrunk / hand-edited trace left the quantifier: nothing is asserted for this workload
+                    outside = True
+                    count("skip.margin")
+                    continue
+                nested = []
+                out, exc, nd = call(c, op, nested=nested)
+                judge_op(opi, op, c, out, exc, nd)
+                for (c2, op2, out2, exc2, nd2) in nested:
+                    # the call the second party made while ours was in progress is judged like any other call
+                    count("fault.preempting_genhkl_call")
+                    judge_op(opi, op2, c2, out2, exc2, nd2)
             # per workload: C06 union clause, C05 schedule / history independence, setting pairing
             for wi in sorted(ctxs):
                 c = ctxs[wi]
@@ -835,6 +889,7 @@ def execute(trace):
         logging.disable(logging.NOTSET)
     for k, v in seam.fired.items():
         count("fault." + k, v)
+    draws_total = tot[0]
     count("draws_intercepted", draws_total)
     count("workloads_per_run.%d" % len([w for w in wl if w is not None]))
     return {"violation": viols[0] if viols else None, "violations": viols, "events": events, "counters": counters,
@@ -954,6 +1009,11 @@ def shrink_candidates(trace):
             t["config"]["workloads"][wi] = None
             yield t
     for i, op in enumerate(ops):
+        if op.get("preempt"):
+            t = copy.deepcopy(trace)
+            del t["ops"][i]["preempt"]
+            yield t
+    for i, op in enumerate(ops):
         sch = op.get("rng")
         if sch:
             if sch["per_draw"]:
@@ -1011,7 +1071,8 @@ def trace_size(trace):
     faults = sum(len(o["rng"]["per_draw"]) + (1 if o["rng"].get("preconsume") else 0) +
                  (0 if o["rng"]["start"] == ["seed", 0] else 1) for o in trace["ops"] if o.get("rng"))
     digits = sum(len(repr(core.unhex(x))) for w in wl for x in w["cell"])
-    return (len(wl), len(trace["ops"]), sum(1 for w in wl if w.get("pair")), faults,
+    return (len(wl), len(trace["ops"]), sum(1 for o in trace["ops"] if o.get("preempt")),
+            sum(1 for w in wl if w.get("pair")), faults,
             sum(1 for o in trace["ops"] if o["mode"]["by"] != "sgno") + sum(1 for o in trace["ops"] if o["output_stl"]),
             sum(0 if core.unhex(w["smin"]) == 0.0 else 1 for w in wl),
             round(sum(core.unhex(w["smax"]) for w in wl), 6), digits)
